@@ -148,6 +148,11 @@ func newChannelWith(ctx context.Context, pipeline Pipeline, transport transport.
 const idle = 0
 const running = 1
 
+// closeCause wraps the (possibly nil) close error so that it can be published atomically.
+type closeCause struct {
+	err error
+}
+
 // implement of Channel
 type channel struct {
 	id             int64
@@ -163,8 +168,8 @@ type channel struct {
 	untilWrite     bool
 	closed         int32
 	running        int32
-	closeErr       error
-	writeLock      sync.Mutex // for sync write
+	closeErr       atomic.Value // closeCause: the error given to the Close call that took effect
+	writeLock      sync.Mutex   // for sync write
 }
 
 // ID get channel id
@@ -214,7 +219,7 @@ func (c *channel) Close(err error) {
 		}
 
 		verifPoint(c, "close.beforeTransportClose")
-		c.closeErr = err
+		c.closeErr.Store(closeCause{err})
 		c.transport.Close()
 		verifPoint(c, "close.beforeCancel")
 		c.cancel()
@@ -492,8 +497,8 @@ func (c *channel) closedErr() error {
 	if c.IsActive() {
 		return nil
 	}
-	if err := c.closeErr; nil != err {
-		return err
+	if cause, ok := c.closeErr.Load().(closeCause); ok && nil != cause.err {
+		return cause.err
 	}
 	return ErrChannelClosed
 }
